@@ -576,6 +576,17 @@ def c12(ctx):
                         h = hashlib.sha256(f.read()).hexdigest()
                     seen.setdefault(h, f"buffers={buffers} input={inp} run={rep}")
                     os.remove(arc)
+        # history: a temp file left behind by an earlier failed run (larger than this run's chunk data)
+        arc = os.path.join(d, "a-stale.cba")
+        with open(os.path.join(d, "a-stale..tmp"), "wb") as f:
+            f.write(b"stale chunk data " * 4096)
+        r = sh([bita, "compress", "--buffered-chunks", "2"] + cargs + pargs + ["-i", src, arc])
+        n += 1
+        if r.returncode == 0:
+            with open(arc, "rb") as f:
+                seen.setdefault(hashlib.sha256(f.read()).hexdigest(), "stale temp file of an earlier failed run present")
+        else:
+            viol.add("valid-compress-failed", {"source": sname, "chunker": cname, "compression": pname, "history": "stale temp file", "stderr": r.stderr.decode()[-200:]})
         if len(seen) > 1:
             viol.add("archive-differs-between-runs", {"source": sname, "chunker": cname, "compression": pname, "variants": list(seen.values())})
         return n, (sname, cname, pname), list(seen)[:1]
@@ -588,7 +599,7 @@ def c12(ctx):
                 samples.append({"source": key[0], "chunker": key[1], "compression": key[2], "archive_sha256": h})
     shutil.rmtree(root, ignore_errors=True)
     cov = {"evaluations": runs, "distinct_nontrivial": len(distinct), "groups": len(groups), "exhaustive": True, "samples": samples,
-           "rule": "real binary on the real multi-thread runtime: for each of 24 (source, chunker, compression) groups the archive from buffered-chunks {1,2,3,8,64} x input {file, pipe} x 3 (thorough 6) repeated runs with TOKIO_WORKER_THREADS rotating over {default, 1, 2} (thorough: every 6th run with each write(2) delayed by 300 us through strace fault injection) must be one byte string; non-trivial = distinct (group, archive) pairs"}
+           "rule": "real binary on the real multi-thread runtime: for each of 24 (source, chunker, compression) groups the archive from buffered-chunks {1,2,3,8,64} x input {file, pipe} x 3 (thorough 6) repeated runs with TOKIO_WORKER_THREADS rotating over {default, 1, 2} (thorough: every 6th run with each write(2) delayed by 300 us through strace fault injection) and one run started with a stale temp file of an earlier failed run in place, must be one byte string; non-trivial = distinct (group, archive) pairs"}
     return result(ctx["pid"], "exploration", cov, viol, t0, ["A5: repeated real runs sample the OS scheduler; the exhaustive schedule coverage is the in-process gate explorer's"])
 
 
